@@ -15,18 +15,15 @@ class SelectChoiceValidator:
         """
         Validate a choice.
         """
-        # Collapse all spaces.
         if isinstance(selected, int):
             selected = str(selected)
 
-        selected_choices = selected.replace(" ", "")
-
         if self._question.supports_multiple_choices():
             # Check for a separated comma values
-            if not re.match("^[a-zA-Z0-9_-]+(?:,[a-zA-Z0-9_-]+)*$", selected_choices):
+            if not re.match("^[^,]+(?:,[^,]+)*$", selected):
                 raise ValueError(self._question.error_message.format(selected))
 
-            selected_choices = selected_choices.split(",")
+            selected_choices = [value.strip() for value in selected.split(",")]
         else:
             selected_choices = [selected]
 
